@@ -60,7 +60,7 @@ def main():
     finally:
         sh('git -C /repo worktree remove --force %s' % wt)
         # restore generated files from /repo
-        subprocess.run(['/venv/bin/python', '-c', 'import sys; sys.path.insert(0,"/verif"); from tools.vlib import core; core.regenerate_all()'], cwd='/verif')
+        subprocess.run(['/venv/bin/python', '-c', 'import sys; sys.path.insert(0,"/verif"); from tools.vlib import core\nwith core.Lock():\n    core.regenerate_all()'], cwd='/verif')
 
 if __name__ == '__main__':
     sys.exit(main())
